@@ -10,14 +10,18 @@ VARIABLES raised, delivered, h
 vars == <<raised, delivered, h>>
 Outcomes == {"dropped", "stored", "delivered-original", "delivered-altered"}
 Init == raised = FALSE /\ delivered = <<>> /\ h = <<>>
+\* "unverifiable": a gram exactly as a real signer rent it, but the receiver has no current key for the claimed signer (a
+\* transferable signer id that is not in its keep): with required signatures nothing of it is ever delivered, altered or not
 Allowed(cls) == IF cls = "intact" THEN {"stored", "delivered-original"}
+                ELSE IF cls = "unverifiable" THEN (IF Authic THEN {"dropped", "stored"} ELSE Outcomes)
                 ELSE IF Authic THEN {"dropped", "stored", "delivered-original"}      \* "stored": e.g. an unknown memo id, never completes
                 ELSE Outcomes                                                       \* unsigned content cannot be told from genuine
 Receive(cls, out) == /\ Len(h) < MaxSteps /\ out \in Allowed(cls)
                      /\ delivered' = IF out \in {"delivered-original", "delivered-altered"} THEN Append(delivered, out) ELSE delivered
                      /\ h' = Append(h, [cls |-> cls, out |-> out]) /\ UNCHANGED raised
-Next == \E cls \in {"intact", "altered"}, out \in Outcomes : Receive(cls, out)
+Next == \E cls \in {"intact", "altered", "unverifiable"}, out \in Outcomes : Receive(cls, out)
 Spec == Init /\ [][Next]_vars
 NeverRaised == raised = FALSE
-AuthenticOnly == Authic => \A i \in DOMAIN delivered : delivered[i] = "delivered-original"
+AuthenticOnly == Authic => /\ \A i \in DOMAIN delivered : delivered[i] = "delivered-original"
+                           /\ \A i \in DOMAIN h : h[i].cls = "unverifiable" => h[i].out \notin {"delivered-original", "delivered-altered"}
 ====
